@@ -58,6 +58,14 @@ def main(tier, seed):
             w = rng.choice([1, -1]) * rng.randrange(1, 3000)
             pr = [(o, o) for o, t in mkpairs(K, small, 7 * w, ctx)]
             tasks.append((bindir, "C03", K, ["%+dw" % w, "%+dw" % -w], pr, "law-inverse-w"))
+    # the same additions with the result printed in ANOTHER calendar
+    cross = []
+    XO = {"ymd": ["ywd", "yd", "ymcw"], "ywd": ["ymd", "yd"], "yd": ["ymd", "ywd"], "ymcw": ["ymd", "ywd"],
+          "bizda": ["ymd"], "ldn": ["ymd", "ywd"], "mdn": ["ymd"]}
+    for i, t in enumerate(tasks):
+        outs = XO[t[2]]
+        cross.append(t + (outs[i % len(outs)],))
+    tasks += cross
     tasks = [t for t in tasks if t[4]]
     tasks.sort(key=lambda t: -len(t[4]))
     for sh in core.pmap(addsweep.add_task, tasks):
